@@ -855,6 +855,13 @@ func enumerateFrameSites(L *Loaded, db *ContractDB) []FrameSite {
 								// spare capacity of a driver-shared array is recorded as an observation. The result keeps the
 								// ownership of the argument, so later writes through it are still obligations.
 								add(fn, in, "append", "[]"+typeStr(et), o, c.why[cc.Args[0]], okTarget(o), true)
+								// ... unless the argument is (derived from) a re-slice x[lo:hi] without a capacity limit of an
+								// array NilAway does not own: its "spare capacity" is the visible content x[hi:] of the original,
+								// which append overwrites in place.
+								if sl := resliceRoot(cc.Args[0]); sl != nil {
+									ro := c.own(sl.X)
+									add(fn, in, "append-into-reslice", "append to a re-slice (no capacity limit) of []"+typeStr(et)+" overwrites the elements after it in the original array, which must be owned", ro, c.why[sl.X], ro == OwnOwned || ro == OwnNilaway, false)
+								}
 								if isBlockPtr(et) && o == OwnOwned && len(cc.Args) == 2 {
 									// appended elements come from a slice built for the call
 									vo, why := c.appendedOwn(cc.Args[1])
@@ -943,6 +950,43 @@ func enumerateFrameSites(L *Loaded, db *ContractDB) []FrameSite {
 		return pi < pj
 	})
 	return sites
+}
+
+// resliceRoot follows the first argument of an append through phis, earlier appends and x[lo:] re-slices to a
+// re-slice x[lo:hi] that keeps the capacity of x (no max): appending to it writes x[hi], x[hi+1], ...
+func resliceRoot(v ssa.Value) *ssa.Slice {
+	seen := map[ssa.Value]bool{}
+	var walk func(v ssa.Value) *ssa.Slice
+	walk = func(v ssa.Value) *ssa.Slice {
+		if seen[v] {
+			return nil
+		}
+		seen[v] = true
+		switch x := v.(type) {
+		case *ssa.Phi:
+			for _, e := range x.Edges {
+				if r := walk(e); r != nil {
+					return r
+				}
+			}
+		case *ssa.Call:
+			if bi, ok := x.Common().Value.(*ssa.Builtin); ok && bi.Name() == "append" {
+				return walk(x.Common().Args[0])
+			}
+		case *ssa.Slice:
+			if x.High != nil && x.Max == nil {
+				if _, isAlloc := x.X.(*ssa.Alloc); isAlloc {
+					return nil // slicing a local array built for the call
+				}
+				return x
+			}
+			if x.High == nil {
+				return walk(x.X)
+			}
+		}
+		return nil
+	}
+	return walk(v)
 }
 
 // appendedOwn: ownership of the elements appended by append(s, t...) where t is the variadic slice.
